@@ -573,6 +573,8 @@ instance : ShOf (Bytes × Val) := ⟨fun s kv => (kv.1, s.val kv.2)⟩
 instance : ShOf (List (Bytes × Val)) := ⟨fun s kvs => kvs.map fun kv => (kv.1, s.val kv.2)⟩
 instance : ShOf (Option Val) := ⟨fun s o => o.map s.val⟩
 instance : ShOf Heap := ⟨Sh.heap⟩
+instance : ShOf Tree := ⟨fun _ t => t⟩
+instance : ShOf (List Tree) := ⟨fun _ ts => ts⟩
 
 /-- a stop whose occurrence may depend on how much fuel the heap size grants -/
 def Stop.soft (e : Stop) : Prop := e = .diverge ∨ e = .enum
@@ -1380,6 +1382,231 @@ theorem fnSize_eqv (args : List Arg) (he : ∀ a ∈ args, Eqv s (e1 a) (e2 a)) 
     | path p => exact Eqv.ret' rfl
   | _ :: _ :: _ => simp only [fnSize]; exact Eqv.stop _
 
+
+/-! ### text, conversion and list functions -/
+
+@[simp] theorem toTreeS_sh (v : Val) : (s.val v).toTreeS = v.toTreeS := by cases v <;> rfl
+@[simp] theorem toVal_sh (t : Tree) : s.val t.toVal = t.toVal := by cases t <;> rfl
+
+theorem accept_sh (h : Heap) (hk : s.k ≤ h.length) (w : Want) (v : Val) :
+    w.accept (s.heap h) (s.val v) = w.accept h v := by
+  cases w <;> cases v <;> try rfl
+  rename_i a
+  simp only [Sh.val_aref, Want.accept, Sh.arrAt_sh s h hk, List.all_map, List.map_map]
+  have h1 : (Val.isStr ∘ s.val) = Val.isStr := by funext v; simp
+  have h2 : (Val.toTreeS ∘ s.val) = Val.toTreeS := by funext v; simp
+  rw [h1, h2]
+
+theorem wantLoop_eqv : ∀ (args : List Arg) (ws : List Want) (acc : List Tree), (∀ a ∈ args, Eqv s (e1 a) (e2 a)) →
+    Eqv s (wantLoop e1 args ws acc) (wantLoop e2 args ws acc)
+  | [], _, _, _ => by simp only [wantLoop]; exact Eqv.ret' rfl
+  | _ :: _, [], _, _ => by simp only [wantLoop]; exact Eqv.ret' rfl
+  | a :: r, w :: ws, acc, he => by
+    simp only [wantLoop]
+    apply Eqv.bind (he a (List.mem_cons_self ..))
+    intro v
+    apply Eqv.bind_getHeap
+    intro h0 hk0
+    apply Eqv.bind (Eqv.liftE (show w.accept (s.heap h0) (ShOf.sh s v) = (w.accept h0 v).map (ShOf.sh s) from by
+      simp only [ShOf.sh]
+      rw [accept_sh h0 hk0]
+      cases w.accept h0 v <;> rfl))
+    intro xs
+    exact wantLoop_eqv r ws _ (mem_tail3 he)
+
+theorem retTree_eqv (t : Tree) : Eqv s (retTree t) (retTree t) := by
+  cases t with
+  | arr xs =>
+    simp only [retTree]
+    apply Eqv.bind (Eqv.alloc (show Cell.arr (xs.map Tree.toVal) = s.cell (Cell.arr (xs.map Tree.toVal)) from by
+      simp only [Sh.cell, List.map_map]
+      congr 1
+      apply List.map_congr_left
+      intro t _
+      simp))
+    intro c
+    exact Eqv.ret' rfl
+  | null => exact Eqv.ret' rfl
+  | bool b => exact Eqv.ret' rfl
+  | int i => exact Eqv.ret' rfl
+  | flt f => exact Eqv.ret' rfl
+  | str x => exact Eqv.ret' rfl
+  | obj kvs => exact Eqv.ret' rfl
+
+theorem fnScalar_eqv (g : ScalarFn) (args : List Arg) (he : ∀ a ∈ args, Eqv s (e1 a) (e2 a)) :
+    Eqv s (fnScalar g e1 args) (fnScalar g e2 args) := by
+  have hw := wantLoop_eqv e1 e2 _ (g.wants args.length) [] (swapArgs_mem (b := g.swap) he)
+  unfold fnScalar
+  split
+  · exact Eqv.stop _
+  · apply Eqv.bind hw
+    intro acc
+    apply Eqv.bind (Eqv.liftE (show g.fin args.length (ShOf.sh s acc) = (g.fin args.length acc).map (ShOf.sh s) from by
+      simp only [ShOf.sh]
+      cases g.fin args.length acc <;> rfl))
+    intro t
+    exact retTree_eqv t
+
+theorem fnReverse_eqv (args : List Arg) (he : ∀ a ∈ args, Eqv s (e1 a) (e2 a)) : Eqv s (fnReverse e1 args) (fnReverse e2 args) := by
+  match args with
+  | [] => simp only [fnReverse]; exact Eqv.stop _
+  | [a] =>
+    simp only [fnReverse]
+    apply Eqv.bind (he a (by simp))
+    intro v
+    cases v <;> try exact Eqv.stop _
+    rename_i c
+    simp only [ShOf.sh, Sh.val_aref]
+    apply Eqv.bind_getHeap
+    intro h0 hk0
+    rw [Sh.arrAt_sh s h0 hk0]
+    apply Eqv.bind (Eqv.alloc (show Cell.arr ((h0.arrAt c).map s.val).reverse = s.cell (Cell.arr (h0.arrAt c).reverse) from by
+      simp [Sh.cell, List.map_reverse]))
+    intro c'
+    exact Eqv.ret' rfl
+  | _ :: _ :: _ => simp only [fnReverse]; exact Eqv.stop _
+
+theorem fnAppend_eqv (args : List Arg) (he : ∀ a ∈ args, Eqv s (e1 a) (e2 a)) : Eqv s (fnAppend e1 args) (fnAppend e2 args) := by
+  match args with
+  | [] => simp only [fnAppend]; exact Eqv.stop _
+  | [_] => simp only [fnAppend]; exact Eqv.stop _
+  | [a, b] =>
+    simp only [fnAppend]
+    apply Eqv.bind (he a (by simp))
+    intro v
+    cases v <;> try exact Eqv.stop _
+    rename_i c
+    simp only [ShOf.sh, Sh.val_aref]
+    apply Eqv.bind (he b (by simp))
+    intro w
+    apply Eqv.bind_getHeap
+    intro h0 hk0
+    rw [Sh.arrAt_sh s h0 hk0]
+    apply Eqv.bind (Eqv.alloc (show Cell.arr ((h0.arrAt c).map s.val ++ [ShOf.sh s w]) = s.cell (Cell.arr (h0.arrAt c ++ [w])) from by
+      simp [Sh.cell, ShOf.sh]))
+    intro c'
+    exact Eqv.ret' rfl
+  | _ :: _ :: _ :: _ => simp only [fnAppend]; exact Eqv.stop _
+
+theorem goEq_sh (m v : Val) : goEq (s.val m) (s.val v) = goEq m v := by cases m <;> cases v <;> rfl
+
+theorem includeLoop_sh (v1 : Val) : ∀ (xs : List Val),
+    includeLoop (s.val v1) (xs.map s.val) = (includeLoop v1 xs).map s.val
+  | [] => rfl
+  | m :: r => by
+    simp only [List.map, includeLoop, goEq_sh]
+    cases goEq m v1 with
+    | none => rfl
+    | some b => cases b <;> simp only [] <;> first | rfl | exact includeLoop_sh v1 r
+
+theorem fnInclude_eqv (args : List Arg) (he : ∀ a ∈ args, Eqv s (e1 a) (e2 a)) : Eqv s (fnInclude e1 args) (fnInclude e2 args) := by
+  match args with
+  | [] => simp only [fnInclude]; exact Eqv.stop _
+  | [_] => simp only [fnInclude]; exact Eqv.stop _
+  | [a, b] =>
+    simp only [fnInclude]
+    apply Eqv.bind (he b (by simp))
+    intro v1
+    apply Eqv.bind (he a (by simp))
+    intro v
+    cases v <;> try exact Eqv.stop _
+    · cases v1 <;> first | exact Eqv.stop _ | exact Eqv.ret' rfl
+    · rename_i c
+      simp only [ShOf.sh, Sh.val_aref]
+      apply Eqv.bind_getHeap
+      intro h0 hk0
+      rw [Sh.arrAt_sh s h0 hk0]
+      exact Eqv.liftE (includeLoop_sh v1 _)
+  | _ :: _ :: _ :: _ => simp only [fnInclude]; exact Eqv.stop _
+
+/-- a (key, element) pair of `sort` under the address shift -/
+def Sh.pair (s : Sh) (p : Option Val × Val) : Option Val × Val := (p.1.map s.val, s.val p.2)
+
+theorem sortLess_sh (ki kj : Option Val) : sortLess (ki.map s.val) (kj.map s.val) = sortLess ki kj := by
+  cases ki with
+  | none => rfl
+  | some vi =>
+    cases kj with
+    | none => cases vi <;> rfl
+    | some vj => cases vi <;> cases vj <;> rfl
+
+theorem sortInsert_sh (x : Option Val × Val) : ∀ (pre : List (Option Val × Val)),
+    sortInsert (s.pair x) (pre.map s.pair) = (sortInsert x pre).map (List.map s.pair)
+  | [] => rfl
+  | p :: r => by
+    simp only [List.map, sortInsert, Sh.pair, sortLess_sh]
+    cases sortLess x.1 p.1 with
+    | error e => rfl
+    | ok b =>
+      cases b
+      · rfl
+      · simp only []
+        have ih := sortInsert_sh x r
+        simp only [Sh.pair] at ih
+        rw [ih]
+        cases sortInsert x r <;> rfl
+
+theorem sortRun_sh : ∀ (xs pre : List (Option Val × Val)),
+    sortRun (xs.map s.pair) (pre.map s.pair) = (sortRun xs pre).map (List.map s.pair)
+  | [], pre => rfl
+  | x :: r, pre => by
+    simp only [List.map, sortRun, sortInsert_sh]
+    cases sortInsert x pre with
+    | error e => rfl
+    | ok pre' => exact sortRun_sh r pre'
+
+theorem sortKeys_sh (dev : Dev) (h : Heap) (hk : s.k ≤ h.length) (fs : List Frag) : ∀ (xs : List Val),
+    sortKeys ⟨dev, none⟩ (s.heap h) fs (xs.map s.val) = (sortKeys ⟨dev, none⟩ h fs xs).map (List.map s.pair)
+  | [] => rfl
+  | x :: r => by
+    simp only [List.map, sortKeys, Sh.pathFirst_sh s dev h hk fs x, sortKeys_sh dev h hk fs r]
+    cases pathFirst ⟨dev, none⟩ h x fs with
+    | error e => rfl
+    | ok kx => cases sortKeys ⟨dev, none⟩ h fs r <;> rfl
+
+theorem sortList_sh (dev : Dev) (h : Heap) (hk : s.k ≤ h.length) (fs : List Frag) (xs : List Val) :
+    sortList ⟨dev, none⟩ (s.heap h) fs (xs.map s.val) = (sortList ⟨dev, none⟩ h fs xs).map (List.map s.val) := by
+  unfold sortList
+  simp only [List.length_map, sortKeys_sh dev h hk fs xs]
+  split
+  · rfl
+  · cases sortKeys ⟨dev, none⟩ h fs xs with
+    | error e => rfl
+    | ok ks =>
+      have hr := sortRun_sh (s := s) ks []
+      simp only [List.map] at hr
+      simp only [exceptMap_ok, hr]
+      cases sortRun ks [] with
+      | error e => rfl
+      | ok l =>
+        simp only [exceptMap_ok, List.map_map, List.map_reverse]
+        rfl
+
+theorem fnSort_eqv (dev : Dev) (args : List Arg) (he : ∀ a ∈ args, Eqv s (e1 a) (e2 a)) :
+    Eqv s (fnSort ⟨dev, none⟩ e1 args) (fnSort ⟨dev, none⟩ e2 args) := by
+  match args with
+  | [] => simp only [fnSort]; exact Eqv.stop _
+  | [_] => simp only [fnSort]; exact Eqv.stop _
+  | [a, b] =>
+    simp only [fnSort]
+    apply Eqv.bind (he a (by simp))
+    intro v
+    cases v <;> try exact Eqv.stop _
+    rename_i c
+    simp only [ShOf.sh, Sh.val_aref]
+    cases b <;> try exact Eqv.stop _
+    rename_i p
+    simp only
+    apply Eqv.bind_getHeap
+    intro h0 hk0
+    rw [Sh.arrAt_sh s h0 hk0]
+    apply Eqv.bind (Eqv.liftE (sortList_sh dev h0 hk0 p.frags _))
+    intro r
+    apply Eqv.bind (Eqv.alloc (show Cell.arr (ShOf.sh s r) = s.cell (Cell.arr r) from rfl))
+    intro c'
+    exact Eqv.ret' rfl
+  | _ :: _ :: _ :: _ => simp only [fnSort]; exact Eqv.stop _
+
 /-- a predicate on values that does not look at addresses -/
 def ShBlind (s : Sh) (p : Val → Bool) : Prop := ∀ v, p (s.val v) = p v
 
@@ -1439,6 +1666,11 @@ theorem evalFn_eqv (dev : Dev) (hd : dev.copies) (root at_ : Val) (f : Bytes) (a
     case nth => exact fnNth_eqv _ _ _ he
     case size => exact fnSize_eqv _ _ _ he
     case pred p => exact fnPred_eqv _ _ p (fnTable_blind hkf) _ he
+    case scalar g => exact fnScalar_eqv _ _ _ _ he
+    case reverse => exact fnReverse_eqv _ _ _ he
+    case append => exact fnAppend_eqv _ _ _ he
+    case incl => exact fnInclude_eqv _ _ _ he
+    case sort => exact fnSort_eqv _ _ _ _ he
 
 theorem eval_eqv (dev : Dev) (hd : dev.copies) (root : Val) :
     ∀ (n : Nat) (a : Arg), ArgLo s.k a → ∀ at_,
